@@ -56,6 +56,8 @@ class Ctx:
         self.coverage = {}
         self.assumptions = []
         self.judge_bin = None     # set by prove(): the driver built against the committed facts snapshot
+        self.defer_tie = False    # bin/check, first attempt: an alarm WITHOUT a failing input is not printed yet (finish returns 2)
+        self.first_attempt = None  # bin/check, second attempt: what the first attempt reported
 
     def cleanup(self):
         shutil.rmtree(self.work, ignore_errors=True)
@@ -514,6 +516,14 @@ def finish(ctx, level="proof"):
     for k in ("evaluations", "distinct_nontrivial", "obligations", "discharged"):
         if k in cov and not isinstance(cov[k], int):
             cov[k] = int(cov[k])
+    if ctx.first_attempt is not None:
+        # bin/check ran the whole check a second time because the first attempt ended without a failing input
+        cov["first_attempt"] = {"no_longer_checked": ctx.first_attempt,
+                                "reproduced": bool(ctx.broken or new)}
+        if not (ctx.broken or new):
+            ctx.notes.append("the first attempt of this run ended with an alarm without a failing input (%s) that did not "
+                             "reproduce when the whole check was run again at once with the same seed: a wall-clock artefact "
+                             "of that run (DESIGN §14), recorded here, not reported" % "; ".join(x[:300] for x in ctx.first_attempt[:3]))
     if ctx.notes:
         cov["notes"] = ctx.notes[:20]
     if ctx.broken:
@@ -540,6 +550,10 @@ def finish(ctx, level="proof"):
             print("  failing input: %s — %s" % (v["key"], v["what"]))
         print("VIOLATION property=%s replay=%s" % (prop, rp))
         rc = 1
+    elif ctx.broken and ctx.defer_tie:
+        # no failing input and nothing printed yet: bin/check runs the whole check once more and reports THAT run
+        print("  first attempt, no longer checks: %s" % " | ".join(b[:300] for b in ctx.broken[:3]), file=sys.stderr)
+        rc = 2
     elif ctx.broken:
         rp = os.path.join(VERIF, "replay", "%s-%s-%d.json" % (prop, ctx.tier, ctx.seed))
         with open(rp, "w") as f:
@@ -555,6 +569,45 @@ def finish(ctx, level="proof"):
             prop, ctx.tier, ctx.seed, cov.get("obligations"), cov.get("discharged"),
             cov.get("evaluations"), time.time() - ctx.t0))
     return rc
+
+
+def settle_by(ctx, name, ops, impl, disagreements, rerun):
+    """Histories of sequential requests are deterministic except for wall-clock effects of the harness run itself
+    (a client or storage timeout of the real code firing because the machine is overloaded, a real 30 s TOTP step
+    passing inside a history). `disagreements(impl)` -> indices where the implementation's answers differ from the
+    model's. When there are any, the identical op stream is run once more (`rerun()` -> (lines, log, rc)). Only if that
+    second, complete run agrees with the model on EVERY line is it taken as the observation of the implementation, and
+    the first run's disagreements are recorded in the evidence (coverage.unreproduced_disagreements, notes). Anything
+    that a change to the code causes shows in both runs and is reported from the first. Returns the answers to judge."""
+    if len(impl) != len(ops):
+        return impl
+    dis = disagreements(impl)
+    if not dis:
+        return impl
+    try:
+        impl2, _, rc2 = rerun()
+    except Exception as e:  # noqa: BLE001
+        ctx.notes.append("settle %s: second run failed (%r); first run stands" % (name, e))
+        return impl
+    if rc2 == 0 and len(impl2) == len(ops) and not disagreements(impl2):
+        first = dis[0]
+        ctx.coverage.setdefault("unreproduced_disagreements", []).append(
+            {"stream": name, "count": len(dis), "first_op": ops[first], "first_run": impl[first], "second_run": impl2[first]})
+        ctx.notes.append("%s: %d answer(s) of the first harness run differed from the model (first: op=%r impl=%r) and did "
+                         "not reproduce on an identical second run, which agrees with the model on all %d lines; the "
+                         "second run is the one judged (wall-clock artefact of the run, see DESIGN §14)"
+                         % (name, len(dis), ops[first], impl[first], len(ops)))
+        return impl2
+    return impl
+
+
+def settle(ctx, name, ops, impl, model, rerun, canon=lambda x: x, pre=lambda op, line: line):
+    """settle_by with the line-by-line comparison of diff_streams (pre: per-op canonicalisation of an implementation line)."""
+    if len(model) != len(ops):
+        return impl
+    return settle_by(ctx, name, ops, impl,
+                     lambda lines: [i for i, (o, a, b) in enumerate(zip(ops, lines, model)) if canon(pre(o, a)) != canon(b)],
+                     rerun)
 
 
 def diff_streams(ctx, name, ops, impl, model, canon=lambda x: x, limit=10):
